@@ -189,13 +189,26 @@ BUILDERS = {
 
 # ------------------------------------------------------------------ init
 def init(m, draw):
-    base = draw(st.sampled_from(['empty', 'pristine', 'partial', 'partial']))
+    m.svc.conf.clear_override('sync_on_startup', group='placement_database')
+    base = draw(st.sampled_from(['empty', 'pristine', 'partial', 'partial',
+                                 'alembic', 'alembic-partial']))
     m.memo['base'] = base
     m.memo['deleted'] = False
     m.memo['synced'] = False
-    m.do(gen.R('RESTORE', 'snapshot', None,
-               'empty' if base == 'empty' else 'pristine', 'restore', [base]),
-         count=False)
+    if base.startswith('alembic'):
+        # a schema managed by the migrations, and the documented option that
+        # runs them at every start-up
+        m.config['placement_database.sync_on_startup'] = True
+        machine.apply_config(m)
+        m.do(gen.R('RESTORE', 'snapshot', None, 'alembic', 'restore',
+                   [base]), count=False)
+        if base == 'alembic-partial':
+            m.do(b_restart(draw, m.d, None))
+            base = 'partial'
+    else:
+        m.do(gen.R('RESTORE', 'snapshot', None,
+                   'empty' if base == 'empty' else 'pristine', 'restore',
+                   [base]), count=False)
     if base == 'partial':
         stmts = []
         gone_t = draw(st.lists(st.sampled_from(STD_TRAITS), max_size=6,
